@@ -9,7 +9,7 @@ open Lean PV PorepyVerif.C01
 /-- generated rules by name; `safe_power` is the repaired rule (the model follows the property) -/
 def findRule (name : String) : Option Rule :=
   if name == "safe_power" then some safePowerFixed
-  else (Gen.arith ++ Gen.lib).find? (fun r => r.name == name)
+  else (Gen.arith ++ Gen.lib ++ Gen.maxrules).find? (fun r => r.name == name)
 
 def jF (j : Json) : R Float := do pure (ratToFloat (← jRat j))
 def fF (j : Json) (k : String) : R Float := field j k >>= jF
@@ -51,14 +51,20 @@ partial def parseTree (j : Json) : R Tree := do
     let dim ← fNat j "dim"
     let a ← field j "a" >>= parseTree
     -- `if dim == 1: return pp.ad.functions.abs(var)`
-    if dim == 1 then
-      match findRule "abs" with
-      | some r => pure (.fn r [] a)
-      | none => throw "no rule abs"
-    else pure (.l2norm dim a)
-  | "max" => pure (.maxAd (← field j "a" >>= parseTree) (← field j "b" >>= parseTree))
-  | "maxR" => pure (.maxR (← field j "a" >>= parseTree) (← fFs j "c"))
-  | "maxL" => pure (.maxL (← fFs j "c") (← field j "a" >>= parseTree))
+    if dim == 1 then pure (.fn Gen.l2_norm_dim1 [] a)
+    else pure (.l2norm Gen.l2_norm dim a)
+  -- maximum(var_0, var_1): one generated rule per operand kinds; `a` is always the AdArray the rule calls `self`
+  | "max" => pure (.opAd Gen.maximum_AdAd (← field j "a" >>= parseTree) (← field j "b" >>= parseTree))
+  | "maxR" =>
+    let a ← field j "a" >>= parseTree
+    match j.getObjVal? "s" with
+    | .ok sv => pure (.opS Gen.maximum_AdS a (← jF sv))
+    | .error _ => pure (.opA Gen.maximum_AdA a (← fFs j "c"))
+  | "maxL" =>
+    let a ← field j "a" >>= parseTree
+    match j.getObjVal? "s" with
+    | .ok sv => pure (.opS Gen.maximum_SAd a (← jF sv))
+    | .error _ => pure (.opA Gen.maximum_AAd a (← fFs j "c"))
   | _ => throw s!"unknown node {k}"
 
 def bits (x : Float) : Json := ofNat x.toBits.toNat
